@@ -441,6 +441,7 @@ type exec struct {
 	ended      map[int]bool
 	restarts   int
 	kills      int
+	noStart    bool
 	out        outcome
 }
 
@@ -468,6 +469,9 @@ func (x *exec) newManager() {
 		return &radius.SessionCounters{InputOctets: sessCfgs[i].in, OutputOctets: sessCfgs[i].out, InputPackets: 7, OutputPackets: 9}, nil
 	})
 	x.am = am
+	if x.noStart {
+		return // Engine B scenarios: no worker goroutines (their tickers run on the real clock)
+	}
 	if err := am.Start(); err != nil {
 		panic(err)
 	}
@@ -493,6 +497,10 @@ func (x *exec) apply(op string) {
 		if err == nil && !x.e.isCrashed() {
 			x.startedOK[i] = true
 		}
+	case "Dup":
+		// same session id, a stranger's identity: records must keep carrying the live session's own
+		x.am.StartSession(&radius.AccountingSession{SessionID: sessCfgs[i].id, Username: "mallory", MAC: net.HardwareAddr{2, 0, 0, 0, 0, 0xee},
+			FramedIP: net.IPv4(10, 0, 0, 99).To4(), NASPort: 999, Class: []byte("class-X"), CircuitID: "circuit-x", RemoteID: "remote-x"})
 	case "Stop":
 		err := x.am.StopSession(sessCfgs[i].id, sessCfgs[i].cause)
 		if err == nil && !x.e.isCrashed() {
@@ -812,10 +820,13 @@ func bubble(t *testing.T, sc scenario) (out outcome, panicked string) {
 // sessions are introduced in order (Start(i) only for the lowest unused i) and
 // used once; Stop(i) is offered for every started session and for ONE session
 // that was never started (clause A3).
+//
+// Dup(i): a second StartSession with the id of session i, which is live at that point, and somebody
+// else's identity; it must be refused and leave no trace (at most one Dup per history).
 func histories(n, maxSess int) [][]string {
 	var out [][]string
-	var rec func(prefix []string, started int)
-	rec = func(prefix []string, started int) {
+	var rec func(prefix []string, started int, active uint, dups int)
+	rec = func(prefix []string, started int, active uint, dups int) {
 		if len(prefix) == n {
 			out = append(out, append([]string{}, prefix...))
 			return
@@ -827,16 +838,32 @@ func histories(n, maxSess int) [][]string {
 		for i := 0; i <= started && i < maxSess; i++ {
 			ops = append(ops, fmt.Sprintf("Stop(%d)", i))
 		}
+		if dups == 0 {
+			for i := 0; i < started; i++ {
+				if active&(1<<uint(i)) != 0 {
+					ops = append(ops, fmt.Sprintf("Dup(%d)", i))
+				}
+			}
+		}
 		ops = append(ops, "Tick", "+3s", "Restart", "Kill")
 		for _, op := range ops {
-			s := started
-			if strings.HasPrefix(op, "Start") {
+			s, a, d := started, active, dups
+			name, i := parseOp(op)
+			switch name {
+			case "Start":
+				a |= 1 << uint(s)
 				s++
+			case "Stop":
+				a &^= 1 << uint(i)
+			case "Dup":
+				d++
+			case "Restart", "Kill":
+				a = 0
 			}
-			rec(append(prefix, op), s)
+			rec(append(prefix, op), s, a, d)
 		}
 	}
-	rec(nil, 0)
+	rec(nil, 0, 0, 0)
 	return out
 }
 
@@ -844,11 +871,12 @@ type bounds struct {
 	maxSess, maxLen int
 	maxDrops        int
 	// longer histories are explored with fewer simultaneous deviations
-	dropsAtLen map[int]int
-	torn       bool
-	queueSizes []int // QueueSize configurations (0 = ample)
-	holdCrash  bool  // also enumerate crash points under every held-answer scenario
-	budget     time.Duration
+	dropsAtLen             map[int]int
+	torn                   bool
+	queueSizes             []int // QueueSize configurations (0 = ample)
+	smallQueueNeedsRestart bool
+	holdCrash              bool // also enumerate crash points under every held-answer scenario
+	budget                 time.Duration
 }
 
 type counters struct {
@@ -912,8 +940,22 @@ func (d *driver) report(sc scenario, out outcome, v viol) {
 func (d *driver) history(ops []string) {
 	d.cnt.histories.Add(1)
 	for _, qs := range d.b.queueSizes {
+		if qs != 0 && d.b.smallQueueNeedsRestart && !hasRestart(ops) {
+			// quick tier: with <=2 unanswered requests the hand-off channel can only overflow while no worker
+			// drains it, i.e. during the recovery of a new process (worker busy + 2 more queued needs 3)
+			continue
+		}
 		d.historyCfg(ops, qs)
 	}
+}
+
+func hasRestart(ops []string) bool {
+	for _, op := range ops {
+		if op == "Restart" || op == "Kill" {
+			return true
+		}
+	}
+	return false
 }
 
 // historyCfg: one history under one QueueSize configuration (0 = ample).
@@ -1280,7 +1322,7 @@ func tierBounds(thorough bool) bounds {
 	if thorough {
 		return bounds{maxSess: 3, maxLen: 5, maxDrops: 3, dropsAtLen: map[int]int{4: 2, 5: 2}, torn: true, holdCrash: true, queueSizes: []int{0, 1, 2}, budget: 16 * time.Minute}
 	}
-	return bounds{maxSess: 2, maxLen: 4, maxDrops: 2, dropsAtLen: map[int]int{4: 1}, torn: true, queueSizes: []int{0, 1}, budget: 60 * time.Second}
+	return bounds{maxSess: 2, maxLen: 4, maxDrops: 2, dropsAtLen: map[int]int{4: 1}, torn: true, queueSizes: []int{0, 1}, smallQueueNeedsRestart: true, budget: 60 * time.Second}
 }
 
 func TestCheck(t *testing.T) {
@@ -1296,6 +1338,7 @@ func TestCheck(t *testing.T) {
 	if *report.FlagReplay != "" {
 		os.Exit(replay(t, run))
 	}
+	runSched(run) // Engine B first and alone: a controlled execution is process-wide
 	if run.WantPart("acct/A6-gigaword-sweep") {
 		sweep(run)
 	}
@@ -1312,6 +1355,9 @@ func replay(t *testing.T, run *report.Run) int {
 	if err != nil {
 		fmt.Println("HARNESS-ERROR", err)
 		return 2
+	}
+	if strings.HasPrefix(v.Part, "sched:") {
+		return replaySched(v)
 	}
 	if sw, _ := v.Extra["sweep"].(bool); sw {
 		fmt.Println("HARNESS-ERROR sweep witnesses are replayed by running --part acct/A6-gigaword-sweep")
